@@ -79,7 +79,7 @@ theorem upN_eq_zero {groups : List (Nat × List Acct)} {r : Acct} {k n : Nat} {s
   · rfl
 
 theorem wayV_eq_zero {accts : List Acct} {groups : List (Nat × List Acct)} {L : List (Acct × Node)} {V : View}
-    (h : TV accts groups L V) (r : Acct) {n : Nat} (hn : V.nextCtr ≤ n) : wayV accts V r n = 0 := by
+    (h : TV ex accts groups L V) (r : Acct) {n : Nat} (hn : V.nextCtr ≤ n) : wayV accts V r n = 0 := by
   unfold wayV pendN
   have h1 : sumMap (nOf n) (V.outb r) = 0 := sumMap_eq_zero (fun st hst => nOf_eq_zero (h.downs r st hst).cts hn)
   have h2 : sumMap (fun e => sumMap (nOf n) e.2) (V.cl r).pendingIn = 0 :=
@@ -127,7 +127,7 @@ structure CStepOK (accts : List Acct) (groups : List (Nat × List Acct)) (L : Li
       pendN n c'.pendingIn + 1 ≤ sumMap (nOf n) cons + pendN n (V.cl x).pendingIn
 
 section Client
-variable {accts : List Acct} {groups : List (Nat × List Acct)} {L : List (Acct × Node)} {V : View} {x : Acct}
+variable {ex : Bool} {accts : List Acct} {groups : List (Nat × List Acct)} {L : List (Acct × Node)} {V : View} {x : Acct}
   {cons rest : List Stanza} {c' : Client} {out : List Stanza} {k : Nat}
 
 /-- sums over the consumed prefix -/
@@ -153,8 +153,8 @@ theorem wayV_popOuts (hq : V.outb x = cons ++ rest) (r : Acct) (n : Nat) :
   unfold wayV View.popOut
   by_cases hr : r = x <;> simp [hr, upd_apply, hq] <;> omega
 
-theorem TV.client_step (hn : accts.Nodup) (h : TV accts groups L V) (hs : CStepOK accts groups L V x cons rest c' out k) :
-    TV accts groups L ((V.popOut x rest).cstep x c' out k) := by
+theorem TV.client_step (hn : accts.Nodup) (h : TV ex accts groups L V) (hs : CStepOK accts groups L V x cons rest c' out k) :
+    TV ex accts groups L ((V.popOut x rest).cstep x c' out k) := by
   have hle : V.le ((V.popOut x rest).cstep x c' out k) := by
     refine ⟨hs.hk, ?_, fun p hp => hp⟩
     intro r id
@@ -379,8 +379,8 @@ structure SStepOK (accts : List Acct) (groups : List (Nat × List Acct)) (L : Li
 
 theorem TV.server_step {accts : List Acct} {groups : List (Nat × List Acct)} {L : List (Acct × Node)} {V : View} {x : Acct}
     {hd : Stanza} {rest : List Stanza} {add : Acct → List Stanza}
-    (hn : accts.Nodup) (h : TV accts groups L V) (hs : SStepOK accts groups L V x hd rest add) :
-    TV accts groups L ((V.popIn x rest).pushes add) := by
+    (hn : accts.Nodup) (h : TV ex accts groups L V) (hs : SStepOK accts groups L V x hd rest add) :
+    TV ex accts groups L ((V.popIn x rest).pushes add) := by
   have hle : V.le ((V.popIn x rest).pushes add) := ⟨Nat.le_refl _, fun _ _ => Nat.le_refl _, fun p hp => hp⟩
   exact {
     acc := h.acc
